@@ -130,6 +130,22 @@ PROPS = {
         "assumptions": TRUST + ["on 3.11-3.13 only the hand-built and JSON routes exist (from_code cannot run there)"],
         "required_reach": {"quick": ["equal-pair-ok", "unequal-pair-ok", "frozen-ok", "route-pair-equal"]},
     },
+    "C07": {
+        "level": "exploration",
+        "interpreters": ("3.7", "3.8", "3.9", "3.10", "3.11"),
+        "post": "c07_schema",
+        "rule": "every value of S-CONST (see C08) x position {instruction operand, unreferenced table entry, operand of a nested function} and every string of a 14-string list (empty, non-ASCII, astral, lone surrogates, NUL, tag lookalikes) x position {name, local, parameter, cell, free variable, co_name, co_filename, docstring, class name}, each built as a real code object (decoded and normalized) and as hand-built CodeData; 4 synthetic CodeData exercising every schema definition; every code object (decoded and normalized) of program stratum Pa (optimize 0) as whole-module documents (thorough: all strata, every nested object on its own too). For each: strict-JSON walker, independent Draft-7 mini validator (cross-checked in the driver against jsonschema.Draft7Validator on a deterministic subset + negative controls), json and json-as-UTF-8 (and orjson on 3.11) serialize/parse cycles, from_json_data == original (strict key, NaNs identified), hashable, to_code identical.",
+        "assumptions": TRUST + ["orjson exists only on the 3.11 host, where only hand-built CodeData can be used (from_code cannot run there)"],
+        "required_reach": {"quick": ["cycle-ok:json", "cycle-ok:json-utf8", "cycle-ok:orjson@3.11", "encodes-identically"]},
+    },
+    "C15": {
+        "level": "exploration",
+        "interpreters": ALL,
+        "stages": 2,
+        "rule": "stage 1: each producer 3.7-3.10 writes the documents (decoded and normalized) of S-CONST x {operand, additional}, the string x position family and a spread of 6000 (thorough: all ~60000 of stratum Pa) grammar programs; stage 2: each of the seven consumers 3.7-3.13 loads every producer's documents (28 ordered pairs), re-serializes and compares canonical dumps (sorted keys, frozenset listings sorted), and compares normalize() of the loaded value with the producer's own normalized document. distinct_nontrivial = distinct (producer, consumer, document) triples.",
+        "assumptions": TRUST,
+        "required_reach": {"quick": ["portable:3.7->3.13", "portable:3.10->3.7", "portable:3.8->3.11", "portable:3.9->3.12", "portable:3.10->3.10"]},
+    },
 }
 
 BASE_NOTE = (
@@ -186,6 +202,18 @@ MANIFEST_TEXT = {
         "design_ref": "DESIGN.md section 4 C08",
         "note": BASE_NOTE,
         "technique": "exhaustive pair enumeration over a closed value universe; CPython's constant key as reference partition",
+    },
+    "C07": {
+        "text": "Exhaustive over a closed constant universe x every position a constant or string can occupy (real decoded objects and hand-built ones), plus all documents of the program grammar; three independent oracles (strictness walker, schema validation by two independent validators, real serialize/parse cycles with json, UTF-8 bytes and orjson) and loss-freeness by strict key and by re-encoding.",
+        "design_ref": "DESIGN.md section 4 C07",
+        "note": BASE_NOTE,
+        "technique": "exhaustive enumeration of constants x positions and of grammar programs; serialize/parse cycle with strict-key comparison",
+    },
+    "C15": {
+        "text": "Exhaustive over the producer x consumer matrix (4 x 7 real interpreters): every document of the enumerated space written by one interpreter is loaded, re-serialized and normalized by every other; byte-identical canonical dumps required.",
+        "design_ref": "DESIGN.md section 4 C15",
+        "note": BASE_NOTE,
+        "technique": "exhaustive interpreter-pair matrix over an enumerated document space; differential comparison of canonical dumps",
     },
     "C13": {
         "text": "Same exhaustive space; the block partition is compared with the jump-target set computed from CPython's reading: no empty block, exact starts, every later block targeted.",
